@@ -5,6 +5,7 @@ import (
 	"errors"
 	"io"
 	"math"
+	"reflect"
 
 	"github.com/google/uuid"
 
@@ -524,10 +525,15 @@ func (n NBTField) ReadFrom(r io.Reader) (int64, error) {
 	}
 	_, err := dec.Decode(n.V)
 	if err != nil {
-		if !errors.Is(err, nbt.ErrEND) {
+		// A lone TAG_End byte stands for "no NBT here". The same sentinel from deeper inside a
+		// document (after more than that one byte) is a decoding failure like any other.
+		if !errors.Is(err, nbt.ErrEND) || cr.n != 1 {
 			return cr.n, err
 		}
-		err = nil
+		// absent: the destination does not keep what an earlier read left in it
+		if v := reflect.ValueOf(n.V); v.Kind() == reflect.Pointer && !v.IsNil() {
+			v.Elem().SetZero()
+		}
 	}
 	return cr.n, nil
 }
